@@ -487,6 +487,80 @@ class Layout(object):
         return self
 
 
+class _Rename(ast.NodeTransformer):
+    def __init__(self, m):
+        self.m = m
+
+    def visit_Name(self, n):
+        if n.id in self.m:
+            return ast.copy_location(ast.Name(id=self.m[n.id], ctx=n.ctx), n)
+        return n
+
+
+def _expand_helpers(tree, kind, fn, depth=0):
+    """the codec with calls of simple helper methods of its class (`x = self.h(a)`,
+    `a, b = self.h(c)`, `return self.h(a)`; helper = straight-line statements and
+    one final return) replaced by the helper's body - parameters renamed, so the
+    layout interpreter sees one function"""
+    import copy
+
+    def helper_of(v):
+        if isinstance(v, ast.Call) and isinstance(v.func, ast.Attribute) and isinstance(v.func.value, ast.Name) \
+                and v.func.value.id == "self" and not v.keywords:
+            r = pyfront.resolve(tree, kind, v.func.attr)
+            if r is not None and isinstance(r[1], ast.FunctionDef) and r[1] is not fn:
+                h = r[1]
+                body = [x for x in h.body if not (isinstance(x, ast.Expr) and isinstance(x.value, ast.Constant))]
+                rets = [x for x in ast.walk(h) if isinstance(x, ast.Return)]
+                if body and isinstance(body[-1], ast.Return) and len(rets) == 1 and body[-1].value is not None and \
+                        len(h.args.args) - 1 == len(v.args) and \
+                        all(isinstance(x, (ast.Assign, ast.Expr, ast.AugAssign, ast.Return)) for x in body):
+                    return h, body
+        return None
+
+    def expand(stmts):
+        out = []
+        for st in stmts:
+            v = st.value if isinstance(st, (ast.Assign, ast.Return, ast.Expr)) else None
+            h = helper_of(v) if v is not None else None
+            if h is not None and depth < 3:
+                hfn, body = h
+                m = {}
+                pre = []
+                for p_, a in zip(hfn.args.args[1:], v.args):
+                    fresh = "__%s_%s_%d" % (hfn.name, p_.arg, st.lineno)
+                    m[p_.arg] = fresh
+                    pre.append(ast.copy_location(ast.Assign(targets=[ast.Name(id=fresh, ctx=ast.Store())],
+                                                            value=a), st))
+                # locals of the helper get fresh names too
+                for x in body:
+                    for t in ast.walk(x):
+                        if isinstance(t, ast.Name) and isinstance(t.ctx, ast.Store) and t.id not in m:
+                            m[t.id] = "__%s_%s_%d" % (hfn.name, t.id, st.lineno)
+                rn = _Rename(m)
+                inl = [rn.visit(copy.deepcopy(x)) for x in body]
+                last = inl.pop()
+                out.extend(pre + inl)
+                if isinstance(st, ast.Assign):
+                    out.append(ast.copy_location(ast.Assign(targets=st.targets, value=last.value), st))
+                elif isinstance(st, ast.Return):
+                    out.append(ast.copy_location(ast.Return(value=last.value), st))
+                else:
+                    out.append(ast.copy_location(ast.Expr(value=last.value), st))
+                for x in out:
+                    ast.fix_missing_locations(x)
+                continue
+            for field in ("body", "orelse"):
+                if isinstance(getattr(st, field, None), list) and getattr(st, field) and \
+                        isinstance(getattr(st, field)[0], ast.stmt):
+                    setattr(st, field, expand(getattr(st, field)))
+            out.append(st)
+        return out
+    fn2 = copy.deepcopy(fn)
+    fn2.body = expand(fn2.body)
+    return fn2
+
+
 def analyse(kind, meth):
     tree = pyfront.base_py()
     r = pyfront.resolve(tree, kind, meth)
@@ -494,7 +568,7 @@ def analyse(kind, meth):
         raise AnalysisError("anchor vanished: %s.%s" % (kind, meth))
     fn = r[1]
     sp = fn.args.args[1].arg if meth == "__setstate__" else None
-    return Layout(fn, sp).run(), fn
+    return Layout(_expand_helpers(tree, kind, fn), sp).run(), fn
 
 
 def facts():
